@@ -27,6 +27,9 @@ static Spec gen_spec(ByteSource& in, const char* convs, bool allow_prec) {
   Spec s; unsigned fl = (unsigned)in.range(0, 31); s.minus = fl & 1; s.plus = fl & 2; s.space = fl & 4; s.hash = fl & 8; s.zero = fl & 16; if (in.chance(100)) { s.minus = s.plus = s.space = s.hash = s.zero = false; }
   unsigned w = in.pick({3, 2, 2, 2, 2, 1}); static const int ws[] = {0, 1, 5, 20}; if (w == 0) s.wmode = 0; else if (w <= 3) { s.wmode = 1; s.width = ws[w]; } else if (w == 4) { s.wmode = 2; s.width = (int)in.range(0, 24); } else { s.wmode = 2; s.width = -(int)in.range(1, 24); }
   if (allow_prec) { unsigned p = in.pick({4, 2, 2, 2, 2, 1}); static const int ps[] = {0, 0, 3, 25}; if (p == 0) s.pmode = 0; else if (p <= 3) { s.pmode = 1; s.prec = ps[p]; } else if (p == 4) { s.pmode = 2; s.prec = in.flag() ? (int)in.range(0, 30) : -(int)in.range(1, 5); } else s.pmode = 3; }
+  // now and then a width / precision around the implementation's internal chunk and buffer sizes (256, 512)
+  if (in.chance(20)) { static const int big[] = {255, 256, 257, 300, 511, 512, 513, 600}; int v = in.flag() ? big[in.range(0, 7)] : (int)in.range(100, 700); s.wmode = in.flag() ? 1 : 2; s.width = (s.wmode == 2 && in.chance(60)) ? -v : v; }
+  if (allow_prec && in.chance(14)) { static const int big[] = {255, 256, 257, 300, 511, 512, 513}; s.pmode = in.flag() ? 1 : 2; s.prec = in.flag() ? big[in.range(0, 6)] : (int)in.range(100, 600); }
   size_t nc = strlen(convs); s.conv = convs[in.range(0, nc - 1)]; return s;
 }
 // C's rules for integer conversions, applied to a digit string (MPIR: o/x/X signed, so sign flags apply)
